@@ -78,6 +78,129 @@ def configs(tier):
     return cfgs
 
 
+# ------------------------------------------------------------------ constant-evaluation leg (rt/c13_cx_driver.cpp)
+
+CX_KINDS = ["push_back", "pop_back", "insert(pos,v)", "insert(pos,n,v)", "insert(pos,first,last)", "insert(pos,ilist)",
+            "erase(pos)", "erase(first,last)", "resize(n)", "resize(n,v)", "assign(n,v)", "assign(first,last)",
+            "assign(ilist)", "assign_string", "assign_range", "clear"]
+
+
+def cx_ops(size):
+    """Every operation instance valid for a vector of this size: (kind, a, b, v, input, resulting size)."""
+    out = [(0, 0, 0, "x", "", size + 1)]
+    if size:
+        out.append((1, 0, 0, "-", "", size - 1))
+    for a in range(size + 1):
+        out.append((2, a, 0, "x", "", size + 1))
+        for b in range(4):
+            out.append((3, a, b, "y", "", size + b))
+        for n in range(4):
+            out.append((4, a, 0, "-", "pqr"[:n], size + n))
+            out.append((5, a, 0, "-", "stu"[:n], size + n))
+    for a in range(size):
+        out.append((6, a, 0, "-", "", size - 1))
+    for a in range(size + 1):
+        for b in range(a, size + 1):
+            out.append((7, a, b, "-", "", size - (b - a)))
+    for a in range(size + 3):
+        out.append((8, a, 0, "-", "", a))
+        out.append((9, a, 0, "z", "", a))
+    for a in range(4):
+        out.append((10, a, 0, "w", "", a))
+    for n in range(4):
+        for k in (11, 12, 13, 14):
+            out.append((k, 0, 0, "-", "ijk"[:n], n))
+    out.append((15, 0, 0, "-", "", 0))
+    return out
+
+
+def cx_sequences(seed, n_depth2, n_depth3):
+    """All depth-1 sequences from the 15 start states, plus seeded samples of depth 2 and 3."""
+    seqs = []
+    states = [""] + [a for a in "ab"] + [a + b for a in "ab" for b in "ab"] + [a + b + c for a in "ab" for b in "ab" for c in "ab"]
+    for st in states:
+        for o in cx_ops(len(st)):
+            seqs.append((st, [o]))
+    rng = C.rng_for(seed, "c13-cx")
+    for depth, cnt in ((2, n_depth2), (3, n_depth3)):
+        for _ in range(cnt):
+            st = rng.choice(states)
+            size, ops = len(st), []
+            for _d in range(depth):
+                o = rng.choice(cx_ops(size))
+                ops.append(o)
+                size = o[5]
+            seqs.append((st, ops))
+    return seqs
+
+
+def cx_source(seqs):
+    def ch(c):
+        return "'%s'" % c
+
+    def op(o):
+        k, a, b, v, inp, _ = o
+        return "{%d, %d, %d, %s, %d, {%s}}" % (k, a, b, ch(v), len(inp), ", ".join(ch(c) for c in inp) or "0")
+    rows = []
+    for st, ops in seqs:
+        rows.append("    {%d, {%s}, %d, {%s}}," % (len(st), ", ".join(ch(c) for c in st) or "0", len(ops), ", ".join(op(o) for o in ops)))
+    return C.read_text(os.path.join(C.RT, "c13_cx_driver.cpp")).replace("/*SEQS*/", "\n".join(rows))
+
+
+def cx_configs(tier):
+    lim_g = ("-fconstexpr-ops-limit=4000000000", "-fconstexpr-loop-limit=100000000")
+    lim_c = ("-fconstexpr-steps=2000000000",)
+    if tier == "quick":
+        return [build.Cfg("g++", "20", "O0", extra=lim_g), build.Cfg("clang++", "20", "O0", extra=lim_c)]
+    return [build.Cfg("g++", "20", "O0", extra=lim_g), build.Cfg("g++", "23", "plain", extra=lim_g),
+            build.Cfg("clang++", "20", "O0", extra=lim_c), build.Cfg("clang++", "23", "plain", extra=lim_c),
+            build.Cfg("g++", "20", "O0", defs=("SBEPP_HAS_BITCAST=0",), extra=lim_g)]
+
+
+def cx_leg(rep):
+    quick = rep.tier == "quick"
+    seqs = cx_sequences(rep.seed, 800 if quick else 6000, 300 if quick else 3000)
+    src = cx_source(seqs)
+
+    def one(cfg):
+        ok, exe, out = build.compile_driver(src, cfg, name="c13cx", timeout=2400)
+        if not ok:
+            return cfg, None, out
+        rc, o, _, to = C.run([exe], timeout=600, env=build.drv_env())
+        return cfg, (rc, to), o.decode(errors="replace")
+
+    for cfg, st, out in C.pmap(one, cx_configs(rep.tier)):
+        tag = "%s/constexpr" % cfg
+        if st is None:
+            first = next((l for l in out.splitlines() if "error" in l), out[-300:])
+            rep.violation("not-a-constant-expression" if "constant expression" in out or "constexpr" in first else "compile-error",
+                          "dynamic_array_ref/constexpr", "%s: the constant-evaluation driver does not compile: %s" % (tag, first[:400]),
+                          {"config": str(cfg), "output": out[-4000:]})
+            continue
+        rc, to = st
+        if to:
+            rep.inconc("constexpr driver timeout under " + tag)
+            continue
+        for mm in re.finditer(r"^MISMATCH inst=(\S+) seq=(\d+) op=\[(\S+) (.*)$", out, re.M):
+            si = int(mm.group(2))
+            rep.violation("model-mismatch", "dynamic_array_ref::%s/constant-evaluation" % mm.group(3), "%s: %s" % (tag, mm.group(0)[:900]),
+                          {"config": str(cfg), "case": mm.group(0), "start_state": seqs[si][0],
+                           "operations": [(CX_KINDS[o[0]],) + o[1:5] for o in seqs[si][1]], "driver": "rt/c13_cx_driver.cpp"})
+        m = re.search(r"CXTOTAL sequences=(\d+) cells=(\d+) mismatches=(\d+)", out)
+        if m is None:
+            rep.violation("abort", "c13_cx_driver", "%s: driver died rc=%s: %s" % (tag, rc, out[-800:]), {"config": str(cfg)})
+            continue
+        if int(m.group(1)) != len(seqs) or int(m.group(2)) != 7 * len(seqs):
+            rep.inconc("%s: %s cells observed, %d expected" % (tag, m.group(2), 7 * len(seqs)))
+        rep.evaluation(int(m.group(2)))
+        rep.count("constexpr_sequences", int(m.group(2)))
+        for om in re.finditer(r"^CXOP (\S+) (\d+)$", out, re.M):
+            if int(om.group(2)) > 0:
+                rep.nontrivial("constexpr", om.group(1), str(cfg))
+    rep.cov["constexpr_configs"] = [str(c) for c in cx_configs(rep.tier)]
+    rep.cov["constexpr_sequences_per_instantiation"] = len(seqs)
+
+
 def main():
     rep = Report("C13", "exploration")
     quick = rep.tier == "quick"
@@ -92,7 +215,11 @@ def main():
              "from each of the 15 states of size <= 3, then %d seeded random "
              "operations per instantiation up to size 200 (uint8: up to max_size 255). A transition is one operation "
              "compared with std::vector (prefix, payload, returned iterator, canaries, untouched tail, read API). "
-             "distinct_nontrivial = distinct (operation kind, instantiation) pairs that executed at least once."
+             "distinct_nontrivial = distinct (operation kind, instantiation) pairs that executed at least once. "
+             "Constant-evaluation leg (C++20/2b, both compilers): every depth-1 operation instance from the 15 start states plus "
+             "seeded depth-2 and depth-3 sequences, for 7 (length type, byte order) instantiations over char, is evaluated in a "
+             "forced constant expression, at run time, and on a std::vector; all three must agree (bytes incl. canaries, "
+             "returned positions)."
              % (depth, random_ops))
     cfgs = configs(rep.tier)
     # the depth-3 DFS costs ~100x the depth-2 one; thorough runs it under three representative configurations
@@ -150,6 +277,7 @@ def main():
                         rep.nontrivial(om.group(1), ln, e)
             for sm in re.finditer(r"^SAMPLE (.*)$", out, re.M):
                 rep.sample({"config": tag, "transition": sm.group(1)})
+    cx_leg(rep)
     rep.cov["configs"] = [str(c) for c in cfgs]
     rep.cov["dfs_depth"] = depth
     rep.cov["dfs_transitions_per_length_type"] = exp_dfs
